@@ -7,6 +7,9 @@ PROF = projgen.profile(p_app_dup=0.4, p_rule_field_variant=0.3, n_builders=(2, 4
 OBS = ("status", "decision", "modules", "loaded", "ninja")
 
 
+DOWNLOADERS = set()     # names of the modules of the project under test that download (set by judge)
+
+
 def closures(r):
     """(builder, app) -> tuple of statement texts reachable from the build's output file"""
     if projrun.impl_status(r) != "ok" or not r["ninja"]:
@@ -19,7 +22,19 @@ def closures(r):
             # several builds write one ${outfile} (C06 known finding "outfile-collision"): the statements of one build cannot be told apart
             out[(b["builder"], b["app"])] = None
             continue
-        out[(b["builder"], b["app"])] = tuple(sorted(ninjaparse.closure(pn, b["outfile"])))
+        cl = ninjaparse.closure(pn, b["outfile"])
+        # a build that compiles a file lying in the download directory of a module it does NOT select: the statements that declare
+        # such a file as a product of that download are written by the builds that do select the downloader; they are those
+        # builds' statements, reached here only through the shared file name
+        absent = DOWNLOADERS - {x["name"] for x in b["modules"]}
+        if absent:
+            def foreign(t):
+                if not t.startswith("build build/dl/"):
+                    return False
+                parts = ninjaparse.canon(t[len("build "):].split(":", 1)[0].split(" ")[0]).split("/")
+                return len(parts) > 2 and parts[2] in absent
+            cl = [t for t in cl if not foreign(t)]
+        out[(b["builder"], b["app"])] = tuple(sorted(cl))
     return out
 
 
@@ -151,6 +166,8 @@ def worker(jobs):
 
 
 def judge(chk, p0, r0, vs, n):
+    DOWNLOADERS.clear()
+    DOWNLOADERS.update(m["name"] for kind, m, path in projcheck.yaml_modules(p0) if isinstance(m, dict) and m.get("download") and m.get("name"))
     if projrun.impl_status(r0) != "ok":
         chk.count("base-not-ok")
         return
